@@ -157,6 +157,11 @@ fn search(args: &HiArgs, mode: SearchMode) -> anyhow::Result<bool> {
         let wtr = searcher.printer().get_mut();
         let _ = print_stats(mode, stats, started_at, wtr);
     }
+    // Flush explicitly: when everything printed fits into the writer's
+    // buffer, this is where a write error first shows up. If we left it to
+    // the writer's destructor, the error would be swallowed, and a closed
+    // pipe would not end the run like a graceful termination.
+    searcher.printer().get_mut().flush()?;
     Ok(matched)
 }
 
